@@ -1319,6 +1319,75 @@ pub fn c04(cx: &Ctx) -> Report {
                 }
             }
         }
+        // adversarial deserializer: every visitor method is called with every payload; whatever the
+        // newtype's visitor accepts must be exactly what the constructor makes of that payload
+        {
+            use crate::serde_h::{probe_payload, ProbeCall};
+            let int_ty = if let Inner::Int(t) = d.inner { Some(t) } else { None };
+            let mut n_probe = 0u64;
+            let mut n_probe_ok = 0u64;
+            for raw in &vals {
+                let base = probe_payload(raw, int_ty);
+                let mut calls: Vec<(String, ProbeCall, bool)> = vec![
+                    ("visit_newtype_struct".into(), ProbeCall::Newtype(Box::new(base.clone())), true),
+                    ("direct visitor method for the payload type".into(), base.clone(), false),
+                    ("visit_seq[1]".into(), ProbeCall::Seq1(Box::new(base.clone())), false),
+                    ("visit_seq[2]".into(), ProbeCall::Seq2(Box::new(base.clone())), false),
+                    ("visit_map{0:..}".into(), ProbeCall::Map1(Box::new(base.clone())), false),
+                    ("visit_some".into(), ProbeCall::Some_(Box::new(base.clone())), false),
+                    ("visit_newtype_struct(visit_newtype_struct)".into(), ProbeCall::Newtype(Box::new(ProbeCall::Newtype(Box::new(base.clone())))), false),
+                ];
+                if let Val::S(sv) = raw {
+                    calls.push(("visit_string".into(), ProbeCall::StringOwned(sv.clone()), false));
+                    calls.push(("visit_bytes".into(), ProbeCall::Bytes(sv.as_bytes().to_vec()), false));
+                }
+                // widened / narrowed numeric visitor methods carrying the same number
+                match raw {
+                    Val::U(x) => {
+                        if let Ok(y) = u64::try_from(*x) {
+                            calls.push(("visit_u64".into(), ProbeCall::U64(y), false));
+                        }
+                        if let Ok(y) = i64::try_from(*x) {
+                            calls.push(("visit_i64".into(), ProbeCall::I64(y), false));
+                        }
+                        calls.push(("visit_u128".into(), ProbeCall::U128(*x), false));
+                        calls.push(("visit_f64".into(), ProbeCall::F64(*x as f64), false));
+                    }
+                    Val::I(x) => {
+                        if let Ok(y) = i64::try_from(*x) {
+                            calls.push(("visit_i64".into(), ProbeCall::I64(y), false));
+                        }
+                        if let Ok(y) = u64::try_from(*x) {
+                            calls.push(("visit_u64".into(), ProbeCall::U64(y), false));
+                        }
+                        calls.push(("visit_i128".into(), ProbeCall::I128(*x), false));
+                        calls.push(("visit_f64".into(), ProbeCall::F64(*x as f64), false));
+                    }
+                    Val::F32(b) => calls.push(("visit_f64".into(), ProbeCall::F64(f32::from_bits(*b) as f64), false)),
+                    Val::F64(b) => calls.push(("visit_f32".into(), ProbeCall::F32(f64::from_bits(*b) as f32), false)),
+                    _ => {}
+                }
+                for (name, call, legit) in calls {
+                    let obs = s.de_probe(&call);
+                    if obs == DeOut::Absent {
+                        break;
+                    }
+                    n_probe += 1;
+                    r.evaluations += 1;
+                    r.transitions += 1;
+                    let exp = refsem::construct(d, raw);
+                    match (&obs, &exp) {
+                        (DeOut::Panic(p), _) => r.violate(mkviol("C04", i, d, &format!("deserialize via {name}"), raw.show(), "no panic".into(), p.clone(), "panic")),
+                        (DeOut::Ok(got), Ok(want)) if got.len() == 1 && got[0] == *want => n_probe_ok += 1,
+                        (DeOut::Ok(got), _) => r.violate(mkviol("C04", i, d, &format!("deserialize via {name}"), raw.show(), format!("{} or an error", expected_show(&exp)), format!("Ok({:?})", got.iter().map(|v| v.show()).collect::<Vec<_>>()), if exp.is_err() { "accepted-but-invalid" } else { "wrong-value" })),
+                        (DeOut::Err(e), Ok(_)) if legit => r.violate(mkviol("C04", i, d, &format!("deserialize via {name}"), raw.show(), expected_show(&exp), format!("Err({e})"), "rejected-but-valid")),
+                        _ => {}
+                    }
+                }
+            }
+            r.hist("adversarial-visitor-calls", n_probe);
+            r.hist("adversarial-visitor-calls-accepted", n_probe_ok);
+        }
         n_plain_err += cnt.0;
         n_val_rej += cnt.1;
         n_sanitised += cnt.2;
